@@ -99,3 +99,15 @@ claim("C08", "generated loaders: the model constructor is called exactly once, e
                                  "container shapes (evaluation of rendered text is judged by CPython's eval per shape: bounded over "
                                  "shapes); shape introspection of pydantic/sqlalchemy/NamedTuple/TypedDict models is outside the claim.",
       ref="DESIGN.md §5, Appendix D")
+
+claim("C10", "every checker class is proved against the pointwise statement of the property for ARBITRARY inner predicates (total "
+             "deterministic `check_loc_stack`), chain lengths and stacks: LocStackEndChecker matches exactly the stacks whose tail "
+             "satisfies the elements in order (loop invariant), Or/And are exists/forall over any number of members, Xor is parity "
+             "(2 and 3 members), Invert is negation, last-location checkers accept only their kind of location and then exactly the "
+             "leaf predicate (field-id equality, `fullmatch`, origin equality, subclass), strings become exact checkers iff they are "
+             "identifiers and regex checkers otherwise, bound(pred, provider) yields the conjunction",
+      note=NOTE + " C10-specific: inner checkers obey PRED (total, deterministic, effect-free); normalize_type / is_subclass_soft are "
+                  "abstracted (deterministic). The construction of checkers from classes / generic aliases and the P builder with its "
+                  "documented identities run on live typing objects and are decided by an exhaustive enumeration of predicate "
+                  "expressions x location stacks up to a printed bound against reference semantics written from the tutorial "
+                  "(labelled bounded, never counted as proved).")
